@@ -18,7 +18,7 @@ def prop(pid, quick, thorough=(), level="other", explanation="", assumptions=(),
 
 prop(
     "C01",
-    [hdr.rule_tpl_hdr, hdr.rule_tpl_lint, hdr.rule_tpl_selfassoc, rawid.rule_raw_id, shape.rule_tpl_prec],
+    [hdr.rule_tpl_hdr, hdr.rule_tpl_lint, hdr.rule_tpl_selfassoc, rawid.rule_raw_id, shape.rule_tpl_prec, fmtdec.rule_traversal, fmtdec.rule_guard_use],
     explanation="Structural necessary conditions of 'every supported input expands to code that compiles warning-free': the 27 generated impl headers and every TypeGenerics splice "
     "(interpolations typed by rustc through the MIR binding join, identifier provenance by def-use), lint attributes on impls that name user variants, no Self::<Assoc> in enum-capable expanders, raw identifiers, "
     "spliced user expressions.",
@@ -38,7 +38,7 @@ prop(
 
 prop(
     "C03",
-    [fmtparse.rule_peg_combinators, fmtparse.rule_peg_tables, fmtparse.rule_fmt_counter, fmtparse.rule_peg_equiv, fmtdec.rule_transparent_call],
+    [fmtparse.rule_peg_combinators, fmtparse.rule_peg_tables, fmtparse.rule_fmt_counter, fmtparse.rule_peg_equiv, fmtdec.rule_transparent_call, fmtdec.rule_dec_cover],
     level="model_checking",
     explanation="A PEG is extracted from the combinator source of impl/src/fmt/parsing.rs on every run (fail-closed on any construct it does not understand) and compared, by table rules and by bounded "
     "exhaustive equivalence, with std::fmt's documented grammar (read from the toolchain's alloc/src/fmt.rs) as rustc_parse_format disambiguates it; the implicit-argument counter of the consumer is checked "
